@@ -45,7 +45,8 @@ def get_angle_spec_from_float(angle: float, tol: float = 1e-4) -> List[Tuple[int
     n_max = 2**IMMEDIATE_BITS - 1
 
     nds = []
-    while rest > tol:
+    # `rest` is in units of pi, while `tol` is an angle (in radians)
+    while rest > tol / np.pi:
         # Find the largest `d` such that `rest <= n_max / 2 ^ d`
         d = int(np.floor(np.log2(n_max / rest)))
         # Find largest `n` such that `rest >= n / 2 ^ d`
@@ -61,5 +62,7 @@ def get_angle_spec_from_float(angle: float, tol: float = 1e-4) -> List[Tuple[int
         while (n_new % 2) == 0:
             n_new, d_new = (int(n_new / 2), d_new - 1)
         nds[i] = (n_new, d_new)
-    nds = [(n, d) for (n, d) in nds if d < 32]
+    # Only drop steps whose exponent cannot be encoded (dropping finer steps than
+    # that would make the result miss tolerances below roughly 2e-7)
+    nds = [(n, d) for (n, d) in nds if d < 2**IMMEDIATE_BITS]
     return nds
